@@ -20,7 +20,10 @@ RULE = ('seeded random C and C++ projects (vf/gen/c07gen.py: 3-10 translation un
         'include-directory names plain or with spaces and Make-special characters, each admitted '
         '(the random names include the same character twice, and directed two-TU projects carry '
         'every special character twice - adjacent and separated - in headers that are renamed and '
-        'then deleted) per compiler and back end by calibration against a hand-written Makefile/build.ninja that '
+        'then deleted; further projects - two random ones in eight and directed four-TU ones per '
+        'character - put the special characters into source file names, source sub-directories '
+        'and executable/library names, i.e. into the path of the objects and their .d files, '
+        'with plain header names) per compiler and back end by calibration against a hand-written Makefile/build.ninja that '
         'consumes the compiler\'s raw -MMD output - one name at a time, then all names of a history '
         'together in both orders) built by the real gcc/g++ (clang/clang++ in '
         'thorough) through recording wrappers, under histories of 6-12 edits (modify header/'
@@ -43,6 +46,11 @@ ASSUMPTIONS = [
     'for Make, a hand-spelt empty rule for it (raw, backslash-escaped or through a variable, '
     'per character) survives the deletion of the header; the names of one history must also '
     'pass together',
+    'special characters in an object\'s own path (target name, source directory, source name) '
+    'are only demanded where a hand-written build file for that one object, reading back the '
+    'compiler\'s own <object>.d, rebuilds it after a header touch and is quiet on a no-op; '
+    '% * ? [ ] ( ) \' : , and leading ~/space are not drawn for object paths at all (C04 shows '
+    'bfg9000+Make cannot build them)',
     'precompiled headers are only demanded where a hand-written build file with the PCH as a '
     'normal prerequisite of the object (compiled with -include, own depfiles) follows edits of '
     'the PCH header and of a header behind it and is quiet on a no-op (per compiler, language '
@@ -52,6 +60,8 @@ ASSUMPTIONS = [
 ]
 KEEP_GOING = False
 # which projects (index mod 8) use a precompiled header, and in which form
+# which projects (index mod 8) have special characters in source/target names
+OBJNAME_SHARE = (3, 6)
 PCH_SHARE = {1: 'object', 4: 'string', 6: 'object'}
 EXTRA_COVERAGE = {'backends': ['make', 'ninja (vf/ref/refninja.py)'],
                   'compilers': lambda tier: ['gcc', 'g++'] + (['clang', 'clang++']
@@ -77,6 +87,8 @@ def floors(tier):
             'names:special-admitted': 15 if q else 300,
             'calibration:admitted': 30 if q else 500,
             'edit:header-gone-with-repeated-character': 20 if q else 150,
+            'obligations:must-recompile-object-with-special-path': 40 if q else 600,
+            'calibration:object-admitted': 20 if q else 150,
             'edit:mod_pch': 3 if q else 50,
             'edit:header-only-through-pch': 3 if q else 50,
             'obligations:pch-users-must-recompile': 10 if q else 300,
@@ -277,6 +289,103 @@ def _calibrate(compiler, lang, backend, pairs, style):
         core.rmtree(root)
 
 
+def calibrate_obj(compiler, lang, backend, target, srcrel):
+    """-> (admitted, reason) for an object <target>.int/<srcrel minus suffix>.o compiled from
+    the source srcrel: a hand-written build file (object and source spelt by hand, the
+    compiler's own <object>.d read back) must build it, stay quiet, and rebuild it after a
+    touch of the (plainly named) header and of the source."""
+    key = (compiler, lang, backend, 'obj', target, srcrel)
+    with _calib_lock:
+        if key in _calib:
+            return _calib[key]
+    style = {}
+    if backend == 'make':
+        for c in sorted({c for c in target + '/' + srcrel if c in MAKE_ESCAPABLE and c != '/'}):
+            k = (compiler, lang, 'ostyle', c)
+            with _calib_lock:
+                known = k in _calib
+            if not known:
+                found = None
+                for sty in ESC_STYLES:
+                    ok, why = _calibrate_obj(compiler, lang, 'make', 'prog',
+                                             't%su%s' % (c, '.c' if lang == 'c' else '.cpp'),
+                                             {c: sty})
+                    if ok:
+                        found = sty
+                        break
+                with _calib_lock:
+                    _calib[k] = found
+            style[c] = _calib[k]
+    if not all(style.values()):
+        out = (False, 'no hand-written spelling of the object works')
+    else:
+        out = _calibrate_obj(compiler, lang, backend, target, srcrel, style)
+    with _calib_lock:
+        _calib[key] = out
+    return out
+
+
+def _calibrate_obj(compiler, lang, backend, target, srcrel, style):
+    root = core.mkscratch('c07obj')
+    try:
+        src, bld = os.path.join(root, 'src'), os.path.join(root, 'bld')
+        tu = os.path.join(src, srcrel)
+        hdr = os.path.join(src, 'inc', 'p.h')
+        objrel = target + '.int/' + os.path.splitext(srcrel)[0] + '.o'
+        obj = os.path.join(bld, objrel)
+        try:
+            proj.write_tree(src, {'inc/p.h': '#define H 1\n',
+                                  srcrel: '#include "p.h"\nint v = H;\n'})
+            os.makedirs(os.path.dirname(obj))
+        except OSError:
+            return False, 'file system refuses the name'
+        env = core.base_env({'C07_INC0': os.path.join(src, 'inc'), 'C07_SRC': tu,
+                             'C07_OBJ': objrel, 'C07_CC': cc_for(compiler, lang, wrap=False)})
+        cmd = '"$$C07_CC" -I "$$C07_INC0" -c "$$C07_SRC" -MMD -MF "$$C07_OBJ.d" -o "$$C07_OBJ"'
+        if backend == 'make':
+            eo, d1 = _esc_target(objrel, style)
+            es, d2 = _esc_target(tu, style)
+            text = (d1 + (d2 if d2 != d1 else '') +
+                    'all: %s\n%s: %s\n\t%s\n-include %s.d\n' % (eo, eo, es, cmd, eo))
+            argv = ['make', '--no-print-directory']
+        else:
+            def n(x):
+                return x.replace('$', '$$').replace(' ', '$ ').replace(':', '$:')
+            text = ('rule cc\n  command = %s\n  depfile = $out.d\n  deps = gcc\n'
+                    'build %s: cc %s\ndefault %s\n' % (cmd, n(objrel), n(tu), n(objrel)))
+            argv = [os.path.join(core.BIN, 'ninja')]
+        with open(os.path.join(bld, proj.buildfile(backend)), 'w') as f:
+            f.write(text)
+
+        def build():
+            rc, o = core.run(argv, cwd=bld, env=env, timeout=120)
+            return rc
+
+        def quiet():
+            m = _mtime(obj)
+            proj.settle()
+            return build() == 0 and _mtime(obj) == m
+
+        def rebuilds():
+            m = _mtime(obj)
+            return build() == 0 and _mtime(obj) not in (None, m)
+
+        proj.settle()
+        if build() != 0 or _mtime(obj) is None:
+            return False, 'reference build of the object fails'
+        if not quiet():
+            return False, 'reference build of the object is not quiet on a no-op'
+        proj.bump(hdr, bld, src)
+        if not rebuilds() or not quiet():
+            return False, "reference build cannot read the compiler's depfile for the object"
+        proj.bump(tu, bld, src)
+        if not rebuilds() or not quiet():
+            return False, 'reference build does not notice a touch of the source'
+        return True, ''
+    finally:
+        core.rmtree(root)
+
+
 def calibrate_pch(compiler, lang, backend):
     """-> (ok, reason).  Can compiler + build tool do precompiled headers the way the
     property demands?  Hand-written build file: the PCH (compiled from pre.h, which includes
@@ -398,6 +507,14 @@ def cases(tier, seed):
             for backend in ('make', 'ninja'):
                 yield {'index': 1000 + k, 'backend': backend, 'compiler': compiler, 'jobs': 1,
                        'directed': 'repeated:' + chars, 'state': st, 'history': hist}
+    for compiler in (['gcc'] if quick else ['gcc', 'clang']):
+        for c in (g.OBJ_CHARS_QUICK if quick else g.OBJ_CHARS_ALL):
+            k += 1
+            st, hist = g.directed_objpath(('c', 'c++')[k % 2], c,
+                                          g.INCMODES[k % len(g.INCMODES)])
+            for backend in ('make', 'ninja'):
+                yield {'index': 1000 + k, 'backend': backend, 'compiler': compiler, 'jobs': 1,
+                       'directed': 'object-path:' + c, 'state': st, 'history': hist}
     for i in range(n):
         rng = core.rng_for(seed, 'c07', i)
         lang = ('c', 'c++')[i % 2] if quick else rng.choice(['c', 'c++'])
@@ -407,6 +524,9 @@ def cases(tier, seed):
             compiler = 'clang' if i % 3 == 2 else 'gcc'
         p_special = [0.0, 0.35, 0.6, 0.35][i % 4]
         st = g.gen_state(rng, lang, p_special, special_incdir=(i % 3 == 1))
+        if i % 8 in OBJNAME_SHARE:
+            st = g.add_objnames(core.rng_for(seed, 'c07obj', i), st,
+                                g.OBJ_CHARS_QUICK if quick or i % 16 < 8 else g.OBJ_CHARS_ALL)
         form = PCH_SHARE.get(i % 8)
         if form:
             st = g.add_pch(core.rng_for(seed, 'c07pch', i), st, form, p_special)
@@ -474,6 +594,33 @@ def _pass(case, res, banned, count):
     return st, hist, used
 
 
+def _resolve_objnames(case, res):
+    """Targets and sources whose object path the tool chain cannot handle get plain names."""
+    compiler, backend = case['compiler'], case['backend']
+    st = copy.deepcopy(case['state'])
+    lang = st['lang']
+    ext = g.src_ext(st)
+
+    def ok_obj(target, srcrel):
+        norm = re.sub(r'[0-9]+', '0', srcrel)
+        ok, why = calibrate_obj(compiler, lang, backend, target, norm)
+        res.ev('calibration:object-admitted' if ok else 'calibration:object-excluded')
+        if not ok:
+            res.exclude('%s/%s: object path: %s: %s' % (
+                compiler, backend, why, g.name_chars(target + '/' + srcrel)))
+        return ok
+
+    if st.get('exe_name') and not ok_obj(st['exe_name'], 't' + ext):
+        st['exe_name'] = None
+    if st.get('lib_name') and not ok_obj('lib' + st['lib_name'], 't' + ext):
+        st['lib_name'] = None
+    for tid, t in st['tus'].items():
+        if 'file_plain' in t and g.name_chars(t['file']) and \
+           not ok_obj(g.tu_target(st, tid), t['file']):
+            t['file'] = t['file_plain']
+    return st
+
+
 def resolve(case, res):
     """Replace names the tool chain itself cannot handle by their plain fallbacks: first
     name by name, then all names of the history together (both orders: GNU make reads
@@ -487,6 +634,9 @@ def resolve(case, res):
             res.exclude('%s/%s: %s' % (compiler, backend, why))
             s2, h2 = g.strip_pch(case['state'], case['history'])
             case = dict(case, state=s2, history=h2)
+    if any('file_plain' in t for t in case['state']['tus'].values()) or \
+       case['state'].get('exe_name') or case['state'].get('lib_name'):
+        case = dict(case, state=_resolve_objnames(case, res))
     banned = set()
     st, hist, used = _pass(case, res, banned, True)
     while len(used) > 1:
@@ -671,6 +821,17 @@ def run_history(case, st, hist, res, count=True, keep_going=False):
         what2 = what + ('/' + kw['reason'] if kw.get('reason') else '')
         kc = KIND_CLASS.get(kind, kind)
         trig = 'chars:' + chars
+        tus = [t for t in (kw.get('missing') or kw.get('wrong_tus') or []) if t != 'pch']
+        objs = sorted(os.path.relpath(p_, bld) for p_, (k_, t_) in products.items()
+                      if k_ == 'object' and t_ in tus)
+        ochars = ''.join(sorted(set(''.join(g.name_chars(o) for o in objs))))
+        if ochars and what in ('not-recompiled', 'stale-output') and \
+           not g.name_chars(edited or ''):
+            # plainly named header, but the objects concerned have special characters in
+            # their own path (source name, source directory, target name)
+            trig = 'object-path:' + ochars
+            wit['object_paths'] = objs
+            wit['no_probe'] = True
         if wit.pop('pch_related', False):
             # only the edge object -> precompiled header carries this change
             kc, trig = 'change-behind-pch', 'pch:' + ctx['state']['pch']['form']
@@ -698,7 +859,7 @@ def run_history(case, st, hist, res, count=True, keep_going=False):
         return rc, out, proj.read_log(log)
 
     def run_prog(cur):
-        exe = os.path.join(bld, 'prog')
+        exe = os.path.join(bld, g.exe_name(st))
         if not os.path.isfile(exe):
             return None, 'no executable ' + exe
         rc, out = core.run([exe], cwd=bld, env=env, timeout=60)
@@ -741,7 +902,7 @@ def run_history(case, st, hist, res, count=True, keep_going=False):
                     raise StepFailed()
                 raise Stop()
             fail(step, kind, 'stale-output', edited, program_rc=rc, expected=exp, got=got[:40],
-                 wrong_lines=wrong[:10],
+                 wrong_lines=wrong[:10], wrong_tus=wrong_tus,
                  pch_related=bool(wrong_tus) and set(wrong_tus) <= set(via_pch))
 
     try:
@@ -829,6 +990,10 @@ def run_history(case, st, hist, res, count=True, keep_going=False):
                 ev('compile-invocations', len(ob.compiled))
                 ev('link-invocations', ob.links + ob.archives)
                 ev('edit:' + kind)
+                special_objs = [t for t in must if t != 'pch' and g.name_chars(
+                    g.tu_target(nxt, t) + '/' + nxt['tus'][t]['file'])]
+                if special_objs and kind not in ('clean', 'noop'):
+                    ev('obligations:must-recompile-object-with-special-path', len(special_objs))
                 if nxt.get('pch') and kind != 'clean':
                     if via_pch:
                         ev('edit:reaches-objects-through-pch')
